@@ -209,4 +209,696 @@ theorem decodeRoot_no_panic (σ : Schema) (j : J) : decodeRoot σ j ≠ .panic :
   · simp
   · assumption
 
+/-! ### association-list lemmas -/
+
+theorem lookup_mid {β : Type} (pre : List (String × β)) (k : String) (x : β) (post : List (String × β))
+    (h : k ∉ pre.map (·.1)) : (pre ++ (k, x) :: post).lookup k = some x := by
+  induction pre with
+  | nil => simp
+  | cons a t ih =>
+    obtain ⟨k', y⟩ := a
+    simp only [List.map_cons, List.mem_cons, not_or] at h
+    have hne : (k == k') = false := by simp [h.1]
+    simp only [List.cons_append, List.lookup, hne]
+    exact ih h.2
+
+theorem setField_mid (pre : List (String × Val)) (k : String) (x y : Val) (post : List (String × Val))
+    (h : k ∉ pre.map (·.1)) : setField k x (pre ++ (k, y) :: post) = pre ++ (k, x) :: post := by
+  induction pre with
+  | nil => simp [setField]
+  | cons a t ih =>
+    obtain ⟨k', z⟩ := a
+    simp only [List.map_cons, List.mem_cons, not_or] at h
+    have hne : ¬ k' = k := fun e => h.1 e.symm
+    simp only [List.cons_append, setField, hne, if_false]
+    rw [ih h.2]
+
+theorem namesOK_mid (pre : List String) (k : String) (post : List String)
+    (h : namesOK (pre ++ k :: post) = true) :
+    isExportedName k = true ∧ reservedKeys.contains k = false ∧ k ∉ pre := by
+  simp only [namesOK, Bool.and_eq_true, List.all_eq_true, decide_eq_true_eq] at h
+  obtain ⟨hall, hnd⟩ := h
+  have hk := hall k (by simp)
+  simp only [Bool.not_eq_true'] at hk
+  refine ⟨hk.1, hk.2, ?_⟩
+  intro hmem
+  rw [List.nodup_append] at hnd
+  exact hnd.2.2 k hmem k (by simp) rfl
+
+/-! ### single steps of the field loop of `decodeValue` -/
+
+theorem decodeFields_skip (σ : Schema) (ftys : List (String × GoType)) (k : String) (jv : J)
+    (rest : List (String × J)) (acc : List (String × Val)) (h : reservedKeys.contains k = true) :
+    decodeFields σ ftys ((k, jv) :: rest) acc = decodeFields σ ftys rest acc := by
+  simp only [decodeFields, h, if_true]
+
+theorem decodeFields_step_val (σ : Schema) (ftys : List (String × GoType)) (k : String) (jv : J)
+    (rest : List (String × J)) (acc : List (String × Val)) (τ : GoType) (v : Val)
+    (hr : reservedKeys.contains k = false) (he : isExportedName k = true) (hl : ftys.lookup k = some τ)
+    (hτ : τ ≠ .pos) (hd : decodeValue σ true τ jv = .ok v) :
+    decodeFields σ ftys ((k, jv) :: rest) acc = decodeFields σ ftys rest (setField k v acc) := by
+  simp only [decodeFields, hr, he, hl, if_true, Bool.false_eq_true, if_false]
+  cases τ <;> simp only [hd] <;> contradiction
+
+theorem decodeFields_step_pos (σ : Schema) (ftys : List (String × GoType)) (k : String) (jv : J)
+    (rest : List (String × J)) (acc : List (String × Val)) (p : Pos)
+    (hr : reservedKeys.contains k = false) (he : isExportedName k = true) (hl : ftys.lookup k = some .pos)
+    (hd : decodePos jv = .ok p) :
+    decodeFields σ ftys ((k, jv) :: rest) acc = decodeFields σ ftys rest (setField k (.pos p) acc) := by
+  simp only [decodeFields, hr, he, hl, if_true, Bool.false_eq_true, if_false, hd]
+
+theorem decodeFields_peKvs (σ : Schema) (ftys : List (String × GoType)) (pe : Option (Pos × Pos))
+    (kvs : List (String × J)) (acc : List (String × Val)) :
+    decodeFields σ ftys (peKvs pe ++ kvs) acc = decodeFields σ ftys kvs acc := by
+  cases pe with
+  | none => simp [peKvs]
+  | some pe =>
+    obtain ⟨p, e⟩ := pe
+    simp only [peKvs]
+    cases hp : encPos p <;> cases he : encPos e <;>
+      simp [optKv, decodeFields_skip, reservedKeys]
+
+theorem wfFields_names (σ : Schema) (ftys : List (String × GoType)) (fs : List (String × Val))
+    (h : wfFields σ ftys fs = true) : ftys.map (·.1) = fs.map (·.1) := by
+  induction ftys generalizing fs with
+  | nil => cases fs <;> simp [wfFields] at h ⊢
+  | cons a t ih =>
+    cases fs with
+    | nil => simp [wfFields] at h
+    | cons b s =>
+      obtain ⟨k, τ⟩ := a
+      obtain ⟨k', v⟩ := b
+      simp [wfFields] at h
+      simp [h.1.1, ih s h.2]
+
+/-! ### the round trip -/
+
+/-- value level: `encodeValue` yields nothing and the zero value is the canonical form, or it
+    yields a document that `decodeValue` turns into the canonical form -/
+def RV (σ : Schema) (v : Val) (τ : GoType) : Prop :=
+  (∃ tn, encodeValue σ v = .res none tn ∧ zero τ = canon v) ∨
+  (∃ j tn, encodeValue σ v = .res (some j) tn ∧ decodeValue σ true τ j = .ok (canon v))
+
+/-- field-loop level -/
+def RF (σ : Schema) (fs : List (String × Val)) (ftys : List (String × GoType)) : Prop :=
+  ∃ kvs, encodeFields σ fs = some kvs ∧ (∀ x ∈ kvs, x.1 ∈ ftys.map (·.1)) ∧
+    ∀ (allF preT : List (String × GoType)) (preV : List (String × Val)) (rest : List (String × J)),
+      allF = preT ++ ftys → preT.map (·.1) = preV.map (·.1) → namesOK (allF.map (·.1)) = true →
+      decodeFields σ allF (kvs ++ rest) (preV ++ zeroFields ftys) =
+        decodeFields σ allF rest (preV ++ canonF fs)
+
+/-- slice-element level -/
+def RE (σ : Schema) (vs : List Val) (ε : GoType) : Prop :=
+  ∃ js, encodeElems σ vs = some js ∧ js.length = vs.length ∧ decodeElems σ ε js = .ok (canonL vs)
+
+theorem typeName_none (kvs : List (String × J)) (h : kvs.lookup "Type" = none) : typeName kvs = "" := by
+  simp only [typeName, h]
+
+theorem lookup_none_of_keys {β : Type} (kvs : List (String × β)) (k : String)
+    (h : ∀ x ∈ kvs, x.1 ≠ k) : kvs.lookup k = none := by
+  induction kvs with
+  | nil => rfl
+  | cons a t ih =>
+    obtain ⟨k', y⟩ := a
+    have h1 : k' ≠ k := h (k', y) (by simp)
+    have hne : (k == k') = false := by simp [Ne.symm h1]
+    simp only [List.lookup, hne]
+    exact ih (fun x hx => h x (by simp [hx]))
+
+theorem peKvs_keys (pe : Option (Pos × Pos)) : ∀ x ∈ peKvs pe, x.1 = "Pos" ∨ x.1 = "End" := by
+  intro x hx
+  cases pe with
+  | none => simp [peKvs] at hx
+  | some pe =>
+    obtain ⟨p, e⟩ := pe
+    simp only [peKvs, List.mem_append] at hx
+    rcases hx with hx | hx
+    · cases hp : encPos p <;> simp [hp, optKv] at hx
+      left; rw [hx]
+    · cases he : encPos e <;> simp [he, optKv] at hx
+      right; rw [hx]
+
+/-- what the three struct-holding cases (by value, pointer, interface) share -/
+theorem struct_round (σ : Schema) (name : String) (pe : Option (Pos × Pos)) (fs : List (String × Val))
+    (ftys : List (String × GoType)) (hn : namesOK (ftys.map (·.1)) = true)
+    (hw : wfFields σ ftys fs = true) (hF : RF σ fs ftys) :
+    ∃ kvs, encodeValue σ (.struct name pe fs) = .res (some (.obj kvs)) name ∧ kvs.lookup "Type" = none ∧
+      decodeFields σ ftys kvs (zeroFields ftys) = .ok (canonF fs) := by
+  obtain ⟨kvs0, henc, hkeys, hdec⟩ := hF
+  have hnames := wfFields_names σ ftys fs hw
+  refine ⟨peKvs pe ++ kvs0, ?_, ?_, ?_⟩
+  · have : namesOK (List.map (fun x => x.1) fs) = true := by rw [← hnames]; exact hn
+    simp only [encodeValue, this, if_true, henc]
+  · apply lookup_none_of_keys
+    intro x hx
+    simp only [List.mem_append] at hx
+    rcases hx with hx | hx
+    · rcases peKvs_keys pe x hx with h | h <;> rw [h] <;> decide
+    · intro heq
+      have hmem := hkeys x hx
+      rw [heq] at hmem
+      simp only [namesOK, Bool.and_eq_true, List.all_eq_true] at hn
+      have := hn.1 "Type" hmem
+      simp [reservedKeys] at this
+  · rw [decodeFields_peKvs]
+    have := hdec ftys [] [] [] (by simp) (by simp) hn
+    simp only [List.append_nil, List.nil_append] at this
+    rw [this]
+    simp only [decodeFields]
+
+/-! #### inversion of `wf` and of the object case of `decodeValue` -/
+
+theorem wf_ptr_inv (σ : Schema) (τ : GoType) (u : Val) (h : wf σ τ (.ptr u) = true) :
+    ∃ t pe fs, τ = .ptr t ∧ u = .struct t pe fs ∧ namesOK ((σ.fieldsOf t).map (·.1)) = true ∧
+      wfFields σ (σ.fieldsOf t) fs = true := by
+  cases τ <;> cases u <;> simp [wf] at h
+  rename_i t name pe fs
+  exact ⟨t, pe, fs, rfl, by rw [h.1.1], h.1.2, h.2⟩
+
+theorem wf_iface_inv (σ : Schema) (τ : GoType) (u : Val) (h : wf σ τ (.iface u) = true) :
+    ∃ i name pe fs, τ = .iface i ∧ u = .ptr (.struct name pe fs) ∧ σ.nodeNames.contains name = true ∧
+      σ.implements i name = true ∧ name ≠ "" ∧ nameOfBytes (bytesOfName name) = name ∧
+      wf σ (.ptr name) u = true := by
+  cases u with
+  | ptr w =>
+    cases w with
+    | struct name pe fs =>
+      cases τ <;> simp [wf] at h
+      rename_i i
+      refine ⟨i, name, pe, fs, rfl, rfl, ?_, h.1.1.1.1.2, h.1.1.1.2, h.1.1.2, ?_⟩
+      · simpa using h.1.1.1.1.1
+      · simp [wf, h.1.2, h.2]
+    | _ => cases τ <;> simp [wf] at h
+  | _ => cases τ <;> simp [wf] at h
+
+theorem decode_ptr_obj_inv (σ : Schema) (t : String) (kvs : List (String × J)) (r : Val)
+    (h : decodeValue σ true (.ptr t) (.obj kvs) = .ok r) :
+    ∃ fs', decodeFields σ (σ.fieldsOf t) kvs (zeroFields (σ.fieldsOf t)) = .ok fs' ∧
+      r = .ptr (.struct t none fs') := by
+  simp only [decodeValue, resolve] at h
+  split at h
+  · contradiction
+  · rename_i name ftys w hres
+    have : name = t ∧ ftys = σ.fieldsOf t ∧ w = Wrap.ptr := by
+      split at hres
+      · split at hres
+        · contradiction
+        · split at hres
+          · injection hres with hres
+            simp only [Prod.mk.injEq] at hres
+            rename_i heq
+            exact ⟨by rw [← hres.1, heq], by rw [← hres.2.1, heq], hres.2.2.symm⟩
+          · contradiction
+      · injection hres with hres
+        simp only [Prod.mk.injEq] at hres
+        exact ⟨hres.1.symm, hres.2.1.symm, hres.2.2.symm⟩
+    obtain ⟨h1, h2, h3⟩ := this
+    subst h1 h2 h3
+    split at h
+    · rename_i fs' hd
+      injection h with h
+      exact ⟨fs', hd, by rw [← h]; rfl⟩
+    · contradiction
+    · contradiction
+
+theorem dropPos_of_valid (p : Pos) (h : p.isValid = true) : dropPos p = p := by
+  have : p ≠ Pos.recovered := by
+    intro e; rw [e] at h; revert h; decide
+  simp only [dropPos, this, if_false]
+
+theorem dropPos_of_invalid (p : Pos) (hw : posWF p = true) (h : p.isValid = false) : dropPos p = Pos.zero := by
+  simp only [posWF, h, Bool.false_or, Bool.and_eq_true, Bool.or_eq_true, decide_eq_true_eq] at hw
+  rcases hw.2 with e | e <;> rw [e] <;> decide
+
+theorem encode_struct_not_none (σ : Schema) (name : String) (pe : Option (Pos × Pos))
+    (fs : List (String × Val)) (tn : String) : encodeValue σ (.struct name pe fs) ≠ .res none tn := by
+  simp only [encodeValue]
+  split
+  · split <;> simp
+  · simp
+
+/-- a well-formed value that encodes to nothing is one of the zero-like values -/
+theorem noValue_of_encode_none (σ : Schema) (τ : GoType) (v : Val) (tn : String)
+    (hw : wf σ τ v = true) (he : encodeValue σ v = .res none tn) : isNoValue v = true := by
+  cases v with
+  | ptr u =>
+    obtain ⟨t, pe, fs, _, hu, _, _⟩ := wf_ptr_inv σ τ u hw
+    subst hu
+    simp only [encodeValue] at he
+    exact absurd he (by simpa only [encodeValue] using encode_struct_not_none σ t pe fs tn)
+  | iface u =>
+    simp only [encodeValue] at he
+    split at he
+    · split at he <;> simp at he
+    · simp at he
+  | struct name pe fs => exact absurd he (encode_struct_not_none σ name pe fs tn)
+  | slice vs =>
+    simp only [encodeValue] at he
+    split at he
+    · rename_i hemp; simpa [isNoValue] using hemp
+    · split at he <;> simp at he
+  | bool b => cases b <;> simp [encodeValue, isNoValue] at he ⊢
+  | str s => cases s <;> simp [encodeValue, isNoValue] at he ⊢
+  | uint bits op n =>
+    simp only [encodeValue] at he
+    split at he
+    · split at he
+      · simpa [isNoValue]
+      · split at he <;> simp at he
+    · simp at he
+  | pos p => simp [encodeValue] at he
+  | other => simp [encodeValue] at he
+  | nil => rfl
+  | inil => rfl
+  | snil => rfl
+
+mutual
+  theorem roundV (σ : Schema) : ∀ (v : Val) (τ : GoType), wf σ τ v = true → (∀ p, v ≠ .pos p) → RV σ v τ
+    | .pos p, _, _, hp => absurd rfl (hp p)
+    | .other, τ, h, _ => by cases τ <;> simp [wf] at h
+    | .bool b, τ, h, _ => by
+      cases τ <;> simp [wf] at h
+      cases b
+      · left; exact ⟨"", by simp [encodeValue], by simp [zero, canon]⟩
+      · right; exact ⟨.bool true, "", by simp [encodeValue], by simp [decodeValue, canon]⟩
+    | .str s, τ, h, _ => by
+      cases τ <;> simp [wf] at h
+      cases s with
+      | nil => left; exact ⟨"", by simp [encodeValue], by simp [zero, canon]⟩
+      | cons b t =>
+        right
+        refine ⟨.str (sanitize (b :: t)), "", by simp [encodeValue], ?_⟩
+        rw [h]; simp [decodeValue, canon]
+    | .uint bits op n, τ, h, _ => by
+      cases τ <;> simp [wf] at h
+      rename_i b o
+      obtain ⟨⟨⟨⟨hb, ho⟩, hbits⟩, hn⟩, hop⟩ := h
+      subst hb ho
+      by_cases hz : n = 0
+      · left; subst hz
+        exact ⟨"", by simp [encodeValue, hbits], by simp [zero, canon]⟩
+      · right
+        cases o with
+        | none =>
+          refine ⟨.num n, "", by simp [encodeValue, hbits, hz], ?_⟩
+          have hle : n ≤ 4294967295 := by
+            rcases hbits with e | e <;> rw [e] at hn <;> omega
+          simp only [decodeValue, hbits, if_true, Option.isSome_none, Bool.false_eq_true, if_false,
+            jsonUint_ofNat n hle, hn, canon]
+        | some t =>
+          simp only [hz, decide_false, Bool.false_or, decide_eq_true_eq] at hop
+          refine ⟨.str (σ.tokStr n), "", by simp [encodeValue, hbits, hz], ?_⟩
+          simp only [decodeValue, if_true, hop, canon]
+    | .nil, τ, h, _ => by
+      cases τ <;> simp [wf] at h
+      left; exact ⟨"", by simp [encodeValue], by simp [zero, canon]⟩
+    | .inil, τ, h, _ => by
+      cases τ <;> simp [wf] at h
+      left; exact ⟨"", by simp [encodeValue], by simp [zero, canon]⟩
+    | .snil, τ, h, _ => by
+      cases τ <;> simp [wf] at h
+      left; exact ⟨"", by simp [encodeValue], by simp [zero, canon]⟩
+    | .struct name pe fs, τ, h, _ => by
+      cases τ <;> simp [wf] at h
+      rename_i name' ftys
+      obtain ⟨⟨hname, hn⟩, hw⟩ := h
+      subst hname
+      obtain ⟨kvs, henc, hty, hdec⟩ := struct_round σ name' pe fs ftys hn hw (roundF σ fs ftys hw)
+      right
+      refine ⟨.obj kvs, name', henc, ?_⟩
+      simp only [decodeValue, typeName_none kvs hty, resolve, ne_eq, not_true_eq_false, if_false, hdec,
+        wrapVal, canon]
+    | .ptr u, τ, h, _ => by
+      obtain ⟨t, pe, fs, hτ, hu, hn, hw⟩ := wf_ptr_inv σ τ u h
+      have hwu : wf σ (.struct t (σ.fieldsOf t)) u = true := by rw [hu]; simp [wf, hn, hw]
+      have ih := roundV σ u (.struct t (σ.fieldsOf t)) hwu (by rw [hu]; intro p; simp)
+      subst hτ
+      rcases ih with ⟨tn, he, _⟩ | ⟨j, tn, he, hd⟩
+      · rw [hu] at he; simp only [encodeValue] at he; split at he
+        · split at he <;> simp at he
+        · simp at he
+      · right
+        have hj : ∃ kvs, j = .obj kvs := by
+          rw [hu] at he; simp only [encodeValue] at he; split at he
+          · split at he
+            · simp only [EncR.res.injEq, Option.some.injEq] at he; exact ⟨_, he.1.symm⟩
+            · simp at he
+          · simp at he
+        obtain ⟨kvs, hj⟩ := hj
+        subst hj
+        refine ⟨.obj kvs, tn, by simp only [encodeValue, he], ?_⟩
+        -- the by-value decoding succeeded, hence there is no "Type" key and the pointer decoding agrees
+        simp only [decodeValue] at hd
+        split at hd
+        · contradiction
+        · rename_i name ftys w hres
+          have hty : typeName kvs = "" := by
+            by_cases e : typeName kvs = ""
+            · exact e
+            · simp only [resolve, ne_eq, e, not_false_eq_true, if_true] at hres
+              split at hres <;> simp at hres
+          simp only [resolve, hty, ne_eq, not_true_eq_false, if_false] at hres
+          injection hres with hres
+          simp only [Prod.mk.injEq] at hres
+          obtain ⟨h1, h2, h3⟩ := hres
+          subst h1 h2 h3
+          split at hd
+          · rename_i fs' hdf
+            injection hd with hd
+            simp only [decodeValue, hty, resolve, ne_eq, not_true_eq_false, if_false, hdf, wrapVal, canon]
+            simp only [wrapVal] at hd
+            rw [hd]
+          · contradiction
+          · contradiction
+    | .iface u, τ, h, _ => by
+      obtain ⟨i, name, pe, fs, hτ, hu, hcont, himpl, hne, hrt, hwu⟩ := wf_iface_inv σ τ u h
+      have ih := roundV σ u (.ptr name) hwu (by rw [hu]; intro p; simp)
+      subst hτ
+      rcases ih with ⟨tn, he, _⟩ | ⟨j, tn, he, hd⟩
+      · rw [hu] at he; simp only [encodeValue] at he; split at he
+        · split at he <;> simp at he
+        · simp at he
+      · right
+        have hj : ∃ kvs, j = .obj kvs ∧ tn = name := by
+          rw [hu] at he; simp only [encodeValue] at he; split at he
+          · split at he
+            · simp only [EncR.res.injEq, Option.some.injEq] at he; exact ⟨_, he.1.symm, he.2.symm⟩
+            · simp at he
+          · simp at he
+        obtain ⟨kvs, hj, htn⟩ := hj
+        subst hj htn
+        obtain ⟨fs', hdf, hr⟩ := decode_ptr_obj_inv σ tn kvs _ hd
+        refine ⟨.obj (("Type", .str (bytesOfName tn)) :: kvs), "", by simp only [encodeValue, he, hne, if_false], ?_⟩
+        have hty : typeName (("Type", J.str (bytesOfName tn)) :: kvs) = tn := by
+          simp [typeName, List.lookup, hrt]
+        have hskip := decodeFields_skip σ (σ.fieldsOf tn) "Type" (.str (bytesOfName tn)) kvs
+          (zeroFields (σ.fieldsOf tn)) (by decide)
+        simp only [decodeValue, hty, resolve, ne_eq, hne, not_false_eq_true, if_true, hcont, Bool.not_true,
+          Bool.false_eq_true, if_false, himpl, hskip, hdf, wrapVal]
+        have hc : canon (Val.iface u) = .iface (canon u) := by simp [canon]
+        rw [hc, hr]
+    | .slice vs, τ, h, _ => by
+      cases τ <;> simp [wf] at h
+      rename_i ε
+      obtain ⟨js, henc, hlen, hdec⟩ := roundE σ vs ε h
+      cases vs with
+      | nil => left; exact ⟨"", by simp [encodeValue], by simp [zero, canon]⟩
+      | cons e es =>
+        right
+        refine ⟨.arr js, "", by simp [encodeValue, henc], ?_⟩
+        simp only [decodeValue, hdec, canonL, canon]
+  theorem roundF (σ : Schema) : ∀ (fs : List (String × Val)) (ftys : List (String × GoType)),
+      wfFields σ ftys fs = true → RF σ fs ftys
+    | [], ftys, h => by
+      cases ftys with
+      | nil =>
+        refine ⟨[], by simp [encodeFields], by simp, ?_⟩
+        intro allF preT preV rest _ _ _
+        simp [zeroFields, canonF]
+      | cons a t => simp [wfFields] at h
+    | (k, v) :: fs', ftys, h => by
+      cases ftys with
+      | nil => simp [wfFields] at h
+      | cons a ftys' =>
+        obtain ⟨k', τ⟩ := a
+        simp only [wfFields, Bool.and_eq_true, decide_eq_true_eq] at h
+        obtain ⟨⟨hk, hwv⟩, hwf⟩ := h
+        subst hk
+        obtain ⟨kvs', henc', hkeys', hdec'⟩ := roundF σ fs' ftys' hwf
+        -- what the remaining fields do once this field's slot holds `canon v`
+        have tail : ∀ (allF preT : List (String × GoType)) (preV : List (String × Val)) (rest : List (String × J)),
+            allF = preT ++ (k', τ) :: ftys' → preT.map (·.1) = preV.map (·.1) → namesOK (allF.map (·.1)) = true →
+            decodeFields σ allF (kvs' ++ rest) (preV ++ (k', canon v) :: zeroFields ftys') =
+              decodeFields σ allF rest (preV ++ (k', canon v) :: canonF fs') := by
+          intro allF preT preV rest hall hpre hok
+          have := hdec' allF (preT ++ [(k', τ)]) (preV ++ [(k', canon v)]) rest (by simp [hall]) (by simp [hpre]) hok
+          simpa using this
+        by_cases hpos : ∃ p, v = .pos p
+        · obtain ⟨p, hv⟩ := hpos
+          subst hv
+          have hτ : τ = .pos := by cases τ <;> simp [wf] at hwv; rfl
+          subst hτ
+          simp only [wf] at hwv
+          cases hval : p.isValid
+          · -- omitted; the zero position is the canonical form
+            have hnone : encPos p = none := by simp [encPos, hval]
+            refine ⟨kvs', by simp [encodeFields, henc', hnone, optKv], ?_, ?_⟩
+            · intro x hx; simp only [List.map_cons, List.mem_cons]; right; exact hkeys' x hx
+            · intro allF preT preV rest hall hpre hok
+              have hc : canon (.pos p) = .pos Pos.zero := by simp [canon, dropPos_of_invalid p hwv hval]
+              have := tail allF preT preV rest hall hpre hok
+              rw [hc] at this
+              simpa [zeroFields, zero, canonF, hc] using this
+          · have hr : p.inRange = true := by
+              simp only [posWF, Bool.and_eq_true] at hwv; exact hwv.1
+            obtain ⟨j, hj, hdj⟩ := decodePos_encPos p hr hval
+            refine ⟨(k', j) :: kvs', by simp [encodeFields, henc', hj, optKv], ?_, ?_⟩
+            · intro x hx
+              simp only [List.mem_cons] at hx
+              rcases hx with hx | hx
+              · rw [hx]; simp
+              · simp only [List.map_cons, List.mem_cons]; right; exact hkeys' x hx
+            · intro allF preT preV rest hall hpre hok
+              have hmid : namesOK (preT.map (·.1) ++ k' :: ftys'.map (·.1)) = true := by
+                rw [hall] at hok; simpa using hok
+              obtain ⟨hexp, hres, hnot⟩ := namesOK_mid _ _ _ hmid
+              have hl : allF.lookup k' = some .pos := by rw [hall]; exact lookup_mid preT k' .pos ftys' hnot
+              have hc : canon (.pos p) = .pos p := by simp [canon, dropPos_of_valid p hval]
+              have hnotV : k' ∉ preV.map (·.1) := by rw [← hpre]; exact hnot
+              simp only [List.cons_append, zeroFields, zero]
+              rw [decodeFields_step_pos σ allF k' j (kvs' ++ rest) _ p hres hexp hl hdj,
+                setField_mid preV k' (.pos p) (.pos Pos.zero) _ hnotV]
+              have := tail allF preT preV rest hall hpre hok
+              rw [hc] at this
+              simpa [canonF, hc] using this
+        · have hnp : ∀ p, v ≠ .pos p := fun p e => hpos ⟨p, e⟩
+          have hτ : τ ≠ .pos := by
+            intro e; subst e; cases v <;> simp [wf] at hwv
+            exact hnp _ rfl
+          have hencF : ∀ (r : EncR), encodeValue σ v = r →
+              encodeFields σ ((k', v) :: fs') = (match r, encodeFields σ fs' with
+                | .res (some j) _, some kvs => some ((k', j) :: kvs)
+                | .res none _, some kvs => some kvs
+                | _, _ => none) := by
+            intro r hr
+            subst hr
+            cases v <;> first | (exact absurd rfl (hnp _)) | rfl | (simp only [encodeFields])
+          rcases roundV σ v τ hwv hnp with ⟨tn, he, hz⟩ | ⟨j, tn, he, hd⟩
+          · refine ⟨kvs', by rw [hencF _ he, henc'], ?_, ?_⟩
+            · intro x hx; simp only [List.map_cons, List.mem_cons]; right; exact hkeys' x hx
+            · intro allF preT preV rest hall hpre hok
+              have := tail allF preT preV rest hall hpre hok
+              simpa [zeroFields, canonF, hz] using this
+          · refine ⟨(k', j) :: kvs', by rw [hencF _ he, henc'], ?_, ?_⟩
+            · intro x hx
+              simp only [List.mem_cons] at hx
+              rcases hx with hx | hx
+              · rw [hx]; simp
+              · simp only [List.map_cons, List.mem_cons]; right; exact hkeys' x hx
+            · intro allF preT preV rest hall hpre hok
+              have hmid : namesOK (preT.map (·.1) ++ k' :: ftys'.map (·.1)) = true := by
+                rw [hall] at hok; simpa using hok
+              obtain ⟨hexp, hres, hnot⟩ := namesOK_mid _ _ _ hmid
+              have hl : allF.lookup k' = some τ := by rw [hall]; exact lookup_mid preT k' τ ftys' hnot
+              have hnotV : k' ∉ preV.map (·.1) := by rw [← hpre]; exact hnot
+              simp only [List.cons_append, zeroFields]
+              rw [decodeFields_step_val σ allF k' j (kvs' ++ rest) _ τ (canon v) hres hexp hl hτ hd,
+                setField_mid preV k' (canon v) (zero τ) _ hnotV]
+              have := tail allF preT preV rest hall hpre hok
+              simpa [canonF] using this
+  theorem roundE (σ : Schema) : ∀ (vs : List Val) (ε : GoType), wfElems σ ε vs = true → RE σ vs ε
+    | [], ε, _ => ⟨[], by simp [encodeElems], rfl, by simp [decodeElems, canonL]⟩
+    | v :: vs', ε, h => by
+      simp only [wfElems, Bool.and_eq_true, Bool.not_eq_true'] at h
+      obtain ⟨⟨⟨hwv, hnv⟩, hnp⟩, hwe⟩ := h
+      obtain ⟨js', henc', hlen', hdec'⟩ := roundE σ vs' ε hwe
+      have hnp' : ∀ p, v ≠ .pos p := by
+        intro p e; subst e; simp [isPosVal] at hnp
+      rcases roundV σ v ε hwv hnp' with ⟨tn, he, _⟩ | ⟨j, tn, he, hd⟩
+      · -- a value that encodes to nothing is excluded from slices
+        exfalso
+        have := noValue_of_encode_none σ ε v tn hwv he
+        rw [this] at hnv
+        contradiction
+      · refine ⟨j :: js', by simp [encodeElems, he, henc'], by simp [hlen'], ?_⟩
+        simp only [decodeElems, hd, hdec', canonL]
+end
+
+/-! ### canonical form, annotations -/
+
+mutual
+  theorem canon_eq_dropRecovered : ∀ (v : Val), noEmptySlice v = true → canon v = dropRecovered v
+    | .ptr v, h => by simp only [noEmptySlice] at h; simp only [canon, dropRecovered, canon_eq_dropRecovered v h]
+    | .iface v, h => by simp only [noEmptySlice] at h; simp only [canon, dropRecovered, canon_eq_dropRecovered v h]
+    | .slice [], h => by simp [noEmptySlice] at h
+    | .slice (e :: es), h => by
+      simp only [noEmptySlice, Bool.and_eq_true] at h
+      simp only [canon, dropRecovered, dropRecoveredL, canon_eq_dropRecovered e h.1, canonL_eq_dropRecoveredL es h.2]
+    | .struct name pe fs, h => by
+      simp only [noEmptySlice] at h
+      simp only [canon, dropRecovered, canonF_eq_dropRecoveredF fs h]
+    | .pos p, _ => by simp only [canon, dropRecovered]
+    | .bool _, _ => by simp only [canon, dropRecovered]
+    | .str _, _ => by simp only [canon, dropRecovered]
+    | .uint _ _ _, _ => by simp only [canon, dropRecovered]
+    | .nil, _ => by simp only [canon, dropRecovered]
+    | .inil, _ => by simp only [canon, dropRecovered]
+    | .snil, _ => by simp only [canon, dropRecovered]
+    | .other, _ => by simp only [canon, dropRecovered]
+  theorem canonL_eq_dropRecoveredL : ∀ (vs : List Val), noEmptySliceL vs = true → canonL vs = dropRecoveredL vs
+    | [], _ => by simp only [canonL, dropRecoveredL]
+    | v :: vs, h => by
+      simp only [noEmptySliceL, Bool.and_eq_true] at h
+      simp only [canonL, dropRecoveredL, canon_eq_dropRecovered v h.1, canonL_eq_dropRecoveredL vs h.2]
+  theorem canonF_eq_dropRecoveredF : ∀ (fs : List (String × Val)), noEmptySliceF fs = true →
+      canonF fs = dropRecoveredF fs
+    | [], _ => by simp only [canonF, dropRecoveredF]
+    | (k, v) :: fs, h => by
+      simp only [noEmptySliceF, Bool.and_eq_true] at h
+      simp only [canonF, dropRecoveredF, canon_eq_dropRecovered v h.1, canonF_eq_dropRecoveredF fs h.2]
+end
+
+mutual
+  theorem forget_canon : ∀ (v : Val), forget (canon v) = canon v
+    | .ptr v => by simp only [canon, forget, forget_canon v]
+    | .iface v => by simp only [canon, forget, forget_canon v]
+    | .slice [] => by simp only [canon, forget]
+    | .slice (e :: es) => by simp only [canon, forget, forgetL, forget_canon e, forgetL_canonL es]
+    | .struct name pe fs => by simp only [canon, forget, forgetF_canonF fs]
+    | .pos p => by simp only [canon, forget]
+    | .bool _ => by simp only [canon, forget]
+    | .str _ => by simp only [canon, forget]
+    | .uint _ _ _ => by simp only [canon, forget]
+    | .nil => by simp only [canon, forget]
+    | .inil => by simp only [canon, forget]
+    | .snil => by simp only [canon, forget]
+    | .other => by simp only [canon, forget]
+  theorem forgetL_canonL : ∀ (vs : List Val), forgetL (canonL vs) = canonL vs
+    | [] => by simp only [canonL, forgetL]
+    | v :: vs => by simp only [canonL, forgetL, forget_canon v, forgetL_canonL vs]
+  theorem forgetF_canonF : ∀ (fs : List (String × Val)), forgetF (canonF fs) = canonF fs
+    | [] => by simp only [canonF, forgetF]
+    | (k, v) :: fs => by simp only [canonF, forgetF, forget_canon v, forgetF_canonF fs]
+end
+
+mutual
+  theorem canon_annotate (ann : Ann) : ∀ (v : Val), canon (annotate ann v) = canon v
+    | .ptr v => by simp only [canon, annotate, canon_annotate ann v]
+    | .iface v => by simp only [canon, annotate, canon_annotate ann v]
+    | .slice [] => by simp only [canon, annotate, annotateL]
+    | .slice (e :: es) => by simp only [canon, annotate, annotateL, canon_annotate ann e, canonL_annotateL ann es]
+    | .struct name pe fs => by simp only [canon, annotate, canonF_annotateF ann fs]
+    | .pos p => by simp only [canon, annotate]
+    | .bool _ => by simp only [canon, annotate]
+    | .str _ => by simp only [canon, annotate]
+    | .uint _ _ _ => by simp only [canon, annotate]
+    | .nil => by simp only [canon, annotate]
+    | .inil => by simp only [canon, annotate]
+    | .snil => by simp only [canon, annotate]
+    | .other => by simp only [canon, annotate]
+  theorem canonL_annotateL (ann : Ann) : ∀ (vs : List Val), canonL (annotateL ann vs) = canonL vs
+    | [] => by simp only [canonL, annotateL]
+    | v :: vs => by simp only [canonL, annotateL, canon_annotate ann v, canonL_annotateL ann vs]
+  theorem canonF_annotateF (ann : Ann) : ∀ (fs : List (String × Val)), canonF (annotateF ann fs) = canonF fs
+    | [] => by simp only [canonF, annotateF]
+    | (k, v) :: fs => by simp only [canonF, annotateF, canon_annotate ann v, canonF_annotateF ann fs]
+end
+
+theorem annotateF_names (ann : Ann) : ∀ (fs : List (String × Val)), (annotateF ann fs).map (·.1) = fs.map (·.1)
+  | [] => by simp only [annotateF, List.map_nil]
+  | (k, v) :: fs => by simp only [annotateF, List.map_cons, annotateF_names ann fs]
+
+theorem canonF_names : ∀ (fs : List (String × Val)), (canonF fs).map (·.1) = fs.map (·.1)
+  | [] => by simp only [canonF, List.map_nil]
+  | (k, v) :: fs => by simp only [canonF, List.map_cons, canonF_names fs]
+
+theorem encPos_of_posKey (p q : Pos) (h : posKey p = posKey q) : encPos p = encPos q := by
+  simp only [posKey] at h
+  simp only [encPos]
+  cases hp : p.isValid <;> cases hq : q.isValid <;> simp [hp, hq] at h ⊢
+  obtain ⟨h1, h2, h3⟩ := h
+  rw [h1, h2, h3]; simp
+
+theorem peKvs_of_peKey (a b : Option (Pos × Pos)) (h : peKey a = peKey b) : peKvs a = peKvs b := by
+  cases a with
+  | none => cases b with
+    | none => rfl
+    | some b => obtain ⟨p, e⟩ := b; simp [peKey] at h
+  | some a =>
+    obtain ⟨p, e⟩ := a
+    cases b with
+    | none => simp [peKey] at h
+    | some b =>
+      obtain ⟨p', e'⟩ := b
+      simp only [peKey, Option.some.injEq, Prod.mk.injEq] at h
+      simp only [peKvs, encPos_of_posKey p p' h.1, encPos_of_posKey e e' h.2]
+
+theorem encPos_dropPos (p : Pos) : encPos (dropPos p) = encPos p := by
+  simp only [dropPos]
+  split
+  · rename_i h
+    have a : Pos.zero.isValid = false := by decide
+    have b : Pos.recovered.isValid = false := by decide
+    rw [h]; simp only [encPos, a, b]; rfl
+  · rfl
+
+mutual
+  /-- Re-annotating the canonical form encodes like the annotated original. -/
+  theorem encode_annotate_canon (σ : Schema) (ann : Ann) : ∀ (v : Val), peStable ann v →
+      encodeValue σ (annotate ann (canon v)) = encodeValue σ (annotate ann v)
+    | .ptr v, h => by
+      simp only [peStable] at h
+      simp only [canon, annotate, encodeValue, encode_annotate_canon σ ann v h]
+    | .iface v, h => by
+      simp only [peStable] at h
+      simp only [canon, annotate, encodeValue, encode_annotate_canon σ ann v h]
+    | .slice [], _ => by simp [canon, annotate, annotateL, encodeValue]
+    | .slice (e :: es), h => by
+      simp only [peStable, peStableL] at h
+      simp only [canon, annotate, annotateL, encodeValue, List.isEmpty_cons, Bool.false_eq_true, if_false,
+        encodeElems, encode_annotate_canon σ ann e h.1, encodeL_annotate_canon σ ann es h.2]
+    | .struct name pe fs, h => by
+      simp only [peStable] at h
+      simp only [canon, annotate, encodeValue, forgetF_canonF, annotateF_names, canonF_names,
+        encodeF_annotate_canon σ ann fs h.2, peKvs_of_peKey _ _ h.1]
+    | .pos p, _ => by simp only [canon, annotate, encodeValue]
+    | .bool _, _ => by simp only [canon, annotate]
+    | .str _, _ => by simp only [canon, annotate]
+    | .uint _ _ _, _ => by simp only [canon, annotate]
+    | .nil, _ => by simp only [canon, annotate]
+    | .inil, _ => by simp only [canon, annotate]
+    | .snil, _ => by simp only [canon, annotate]
+    | .other, _ => by simp only [canon, annotate]
+  theorem encodeL_annotate_canon (σ : Schema) (ann : Ann) : ∀ (vs : List Val), peStableL ann vs →
+      encodeElems σ (annotateL ann (canonL vs)) = encodeElems σ (annotateL ann vs)
+    | [], _ => by simp only [canonL, annotateL]
+    | v :: vs, h => by
+      simp only [peStableL] at h
+      simp only [canonL, annotateL, encodeElems, encode_annotate_canon σ ann v h.1,
+        encodeL_annotate_canon σ ann vs h.2]
+  theorem encodeF_annotate_canon (σ : Schema) (ann : Ann) : ∀ (fs : List (String × Val)), peStableF ann fs →
+      encodeFields σ (annotateF ann (canonF fs)) = encodeFields σ (annotateF ann fs)
+    | [], _ => by simp only [canonF, annotateF]
+    | (k, v) :: fs, h => by
+      simp only [peStableF] at h
+      have ihv := encode_annotate_canon σ ann v h.1
+      have ihf := encodeF_annotate_canon σ ann fs h.2
+      cases v with
+      | pos p => simp only [canonF, canon, annotateF, annotate, encodeFields, ihf, encPos_dropPos]
+      | slice vs =>
+        cases vs <;>
+          (simp only [canon, annotate, annotateL] at ihv
+           simp only [canonF, canon, annotateF, annotate, annotateL, encodeFields, ihf, ihv])
+      | ptr u =>
+        simp only [canon, annotate] at ihv
+        simp only [canonF, canon, annotateF, annotate, encodeFields, ihf, ihv]
+      | iface u =>
+        simp only [canon, annotate] at ihv
+        simp only [canonF, canon, annotateF, annotate, encodeFields, ihf, ihv]
+      | struct name pe fs' =>
+        simp only [canon, annotate] at ihv
+        simp only [canonF, canon, annotateF, annotate, encodeFields, ihf, ihv]
+      | _ => simp only [canonF, canon, annotateF, annotate, encodeFields, ihf]
+end
+
 end ShVerif.C15
